@@ -416,10 +416,14 @@ class TokamakEquilibrium(Equilibrium):
                 # Use an exponential decay for the pressure, based on
                 # the value and gradient at the plasma edge
                 p0 = pressure[-1]
-                # p = p0 * exp( (psi - psi0) * dpdpsi / p0)
-                pressure = np.concatenate(
-                    [pressure, p0 * np.exp((psiSOL - psi_edge) * dpdpsi / p0)]
-                )
+                if p0 == 0.0:
+                    # pressure already vanishes at the plasma edge: nothing to decay
+                    # (the exponential form below would give 0*exp(0/0) = nan)
+                    pressure_sol = np.zeros(psiSOL.shape)
+                else:
+                    # p = p0 * exp( (psi - psi0) * dpdpsi / p0)
+                    pressure_sol = p0 * np.exp((psiSOL - psi_edge) * dpdpsi / p0)
+                pressure = np.concatenate([pressure, pressure_sol])
 
         self.magneticFunctionsFromGrid(
             R1D, Z1D, psi2D, self.user_options.psi_interpolation_method
